@@ -37,7 +37,10 @@ def seeds_table():
         if m.get("valid_seed"):
             n += 1
             det += 1 if m.get("detected") else 0
-        rows.append(f"| {sid} | {m.get('property')} | {notes} | {'yes' if m.get('valid_seed') else 'no'} | {caught} |")
+        valid = 'yes' if m.get('valid_seed') else 'no'
+        if not m.get('valid_seed') and m.get('obsolete_reason'):
+            valid = 'no longer (' + m['obsolete_reason'] + ')'
+        rows.append(f"| {sid} | {m.get('property')} | {notes} | {valid} | {caught} |")
     rows.append("")
     rows.append(f"Valid seeds: {n}; detected by at least one check: {det}.")
     return "\n".join(rows)
